@@ -270,6 +270,8 @@ fn degenerate(op: &str, k: &BigUint) -> bool {
             let fx = sm9fix();
             sm9::encrypt_with_r(&sm9::enc_g(&fx.ppube), &fx.ppube, b"Bob", b"c14", k).is_none()
         }
+        // a private / master key must lie in [1, order-2]: discarding order-1 after the sampler returned it is justified
+        "sm2.gen_keypair" | "sm9.generate_sign_master_key" | "sm9.SignMaster::master_key_generate" | "sm9.generate_enc_master_key" | "sm9.EncMaster::master_key_generate" => *k == order(op) - 1u32,
         _ => false,
     }
 }
